@@ -1164,7 +1164,10 @@ class QvmCpu:
 
     def _exec_lcase(self):
         s = self.pop(CellType.STRING)
-        self.push(CellType.STRING, s.lower())
+        # only the letters A-Z have another case in BASIC (accented
+        # letters stay as they are, and no character is replaced by two)
+        self.push(CellType.STRING, ''.join(
+            chr(ord(c) + 32) if 'A' <= c <= 'Z' else c for c in s))
 
     def _exec_ltrim(self):
         s = self.pop(CellType.STRING)
@@ -1593,7 +1596,10 @@ class QvmCpu:
 
     def _exec_ucase(self):
         s = self.pop(CellType.STRING)
-        self.push(CellType.STRING, s.upper())
+        # only the letters a-z have another case in BASIC (accented
+        # letters stay as they are, and no character is replaced by two)
+        self.push(CellType.STRING, ''.join(
+            chr(ord(c) - 32) if 'a' <= c <= 'z' else c for c in s))
 
     def _exec_xor(self):
         self._bitwise(lambda a, b: a ^ b)
